@@ -80,8 +80,28 @@ def oracle(p, S, out, ref):
     return bad
 
 
+def corpus_cases(ctx, corr, exe):
+    """minimised past cases (corpus/C01/*.ops): raw protocol lines, model vs implementation only"""
+    d = ctx.verif / "corpus" / "C01"
+    files = sorted(d.glob("*.ops")) if d.exists() else []
+    cases = [[l for l in f.read_text().splitlines() if l.strip() and not l.startswith("#") and not l.startswith("case ")] for f in files]
+    if not cases:
+        return
+    impl, crashes = run_cases(exe, cases)
+    model, _ = run_cases(ctx.driver("drv_ls"), cases)
+    for i, f in enumerate(files):
+        corr.case(key="corpus:" + f.name)
+        corr.count("corpus_cases")
+        if i in crashes:
+            corr.fail("corpus case crashes the solver", {"stream": "ls", "ops": cases[i], "file": f.name}, "corpus", crashes[i][1])
+        elif len(impl[i]) != len(model[i]) or any(b != "not-modelled" and not lines_equal(a, b, rtol=1e-9, atol=1e-9)
+                                                  for a, b in zip(impl[i], model[i])):
+            corr.disagree("ls-corpus", cases[i], impl[i], model[i], f.name)
+
+
 def correspond(ctx, corr):
     exe = harness(ctx)
+    corpus_cases(ctx, corr, exe)
     cases, meta = make_cases(ctx, ctx.size(25, 1200))
     impl, crashes = run_cases(exe, cases)
     model, _ = run_cases(ctx.driver("drv_ls"), cases)
